@@ -1,24 +1,25 @@
 #!/bin/sh
 # mutant_eval.sh <dir containing patch.diff and demo.py|demo.sh> <check ids to run...>
 # Applies a seeded change to /repo, confirms (a) the repository's tests still pass, (b) the demonstration fails with the change
-# and passes without it, runs the named checks (quick tier) against the changed tree, and ALWAYS restores /repo.
+# and passes without it (repository = $VERIF_REPO, default /repo), runs the named checks (quick tier) against the changed tree, and ALWAYS restores /repo.
 d="$1"; shift
-cd /repo || exit 2
+R=${VERIF_REPO:-/repo}
+cd "$R" || exit 2
 [ -z "$(git status --porcelain)" ] || { echo "REPO NOT CLEAN"; exit 2; }
 demo="$d/demo.py"; runner="/venv/bin/python"
 [ -f "$demo" ] || { demo="$d/demo.sh"; runner="sh"; }
-echo "== demo on the clean tree (must exit 0)"; $runner "$demo" /repo >/tmp/mut_demo_clean.log 2>&1; echo "demo_clean_exit=$?"
+echo "== demo on the clean tree (must exit 0)"; $runner "$demo" "$R" >/tmp/mut_demo_clean.log 2>&1; echo "demo_clean_exit=$?"
 git apply --check "$d/patch.diff" || { echo "PATCH DOES NOT APPLY"; exit 2; }
 git apply "$d/patch.diff"
-trap 'git -C /repo checkout -- . >/dev/null 2>&1' EXIT INT TERM
+trap 'git -C "$R" checkout -- . >/dev/null 2>&1' EXIT INT TERM
 echo "== repository tests with the change"; /venv/bin/python -m pytest -q -p no:cacheprovider 2>&1 | tail -1
-echo "== demo with the change (must exit non-zero)"; $runner "$demo" /repo >/tmp/mut_demo_mut.log 2>&1; echo "demo_mutant_exit=$?"
+echo "== demo with the change (must exit non-zero)"; $runner "$demo" "$R" >/tmp/mut_demo_mut.log 2>&1; echo "demo_mutant_exit=$?"
 cd ${VERIF_DIR:-/verif}
 for c in "$@"; do
-  ./check "$c" --tier quick >/tmp/mut_check_$c.log 2>&1; rc=$?
+  VERIF_REPO="$R" ./check "$c" --tier quick >/tmp/mut_check_$c.log 2>&1; rc=$?
   echo "check $c exit=$rc  $(grep -c '^VIOLATION' /tmp/mut_check_$c.log) violation lines; $(tail -1 /tmp/mut_check_$c.log | cut -c1-160)"
   grep -m2 'what:' /tmp/mut_check_$c.log | cut -c1-220
 done
 rm -rf ${VERIF_DIR:-/verif}/replays/violations
-git -C /repo checkout -- .
-echo "== restored: $(git -C /repo status --porcelain | wc -l) modified files"
+git -C "$R" checkout -- .
+echo "== restored: $(git -C "$R" status --porcelain | wc -l) modified files"
